@@ -615,6 +615,16 @@ pub fn run(prop: &str, tier: &str) -> i32 {
         eprintln!("  {}", labels.last().unwrap());
         total = total.merge(acc);
     }
+    {
+        let t0 = std::time::Instant::now();
+        let mut docs = docs::panel();
+        docs.extend(docs::names_universe(false));
+        let mode = if prop == "C03" { crate::checks::common::Mode::NodesAndPaths } else { crate::checks::common::Mode::Nodes };
+        let acc = crate::checks::lifted::lifted(&run, &docs, if run.thorough() { 5 } else { 3 }, mode);
+        labels.push(format!("construct x context matrix: {} documents, {} (selector, context) queries, {} evaluations, {:.1}s", docs.len(), acc.transitions, acc.evals, t0.elapsed().as_secs_f64()));
+        eprintln!("  {}", labels.last().unwrap());
+        total = total.merge(acc);
+    }
     if prop == "C03" {
         let t0 = std::time::Instant::now();
         let acc = history_paths(&run, run.thorough());
@@ -623,7 +633,7 @@ pub fn run(prop: &str, tier: &str) -> i32 {
         total = total.merge(acc);
     }
     let rule = match prop {
-        "C01" => "one case = one edge (nodelist state, segment) of the product of the real evaluator and the RFC reference model; states de-duplicated per document on the evaluator's full observable state; non-trivial = the model selects at least one node",
+        "C01" => "one case = one edge (nodelist state, segment) of the product of the real evaluator and the RFC reference model; states de-duplicated per document on the evaluator's full observable state; plus the construct x context matrix: every selector of the per-document alphabet in 34 syntactic positions (filter test, function argument, comparison operand, nested, descendant, union, after a multi-node segment) against the model; non-trivial = the model selects at least one node",
         "C02" => "one case = one edge (nodelist state, segment); non-trivial = the result has at least two nodes, so its order is constrained",
         _ => "one case = one edge (nodelist state, segment) plus one re-query per distinct reported path; plus: every history of up to two calls (six entry points x valid and rejected query strings) on a fresh thread followed by probe queries whose paths are checked; non-trivial = at least one (node, path) pair is reported",
     };
